@@ -88,21 +88,21 @@ Lemma id_of_name_inj l1 l2 : Forall is_byte l1 -> Forall is_byte l2 -> id_of_nam
 Proof. unfold id_of_name. apply push_bytes_inj. lia. Qed.
 
 Lemma fresh_id_name sym n : fresh_id (id_of_name sym) n = id_of_name (fresh_name sym n).
-Proof. unfold fresh_id, id_of_name, fresh_name. rewrite push_bytes_app. reflexivity. Qed.
+Proof. unfold fresh_id, id_of_name, fresh_name. rewrite (push_bytes_app 1 sym). reflexivity. Qed.
 
 (* a generated name is internal (ends in "__tmp") *)
+Lemma push_tmp x : push_bytes x tmp_suffix = x * 1099511627776 + 409623358832.
+Proof. unfold push_bytes, tmp_suffix. simpl. lia. Qed.
+
 Lemma fresh_id_internal sym n : 1 <= sym -> is_internal (fresh_id sym n) = true.
 Proof.
   intros Hs. unfold fresh_id. rewrite push_bytes_app.
   pose proof (push_bytes_ge sym (dec_bytes n) Hs (uint_bytes_byte _)) as Hge.
   set (x := push_bytes sym (dec_bytes n)) in *.
-  unfold is_internal, tmp_suffix, push_bytes. simpl.
+  unfold is_internal. rewrite !push_tmp.
   apply andb_true_iff. split.
   - apply Z.leb_le. lia.
-  - apply Z.eqb_eq.
-    replace (((((x * 256 + 95) * 256 + 95) * 256 + 116) * 256 + 109) * 256 + 112)
-      with (x * 1099511627776 + 410911403376) by ring.
-    rewrite Z.add_comm, Z.mod_add by lia. reflexivity.
+  - apply Z.eqb_eq. rewrite Z.add_comm, Z.mod_add by lia. reflexivity.
 Qed.
 
 (* ---- the isolated relation *)
